@@ -85,6 +85,17 @@ def sf_unchanged_old(ex, st, *names):
     return vbool(and_(*out))
 
 
+def sf_untouched(ex, st, obj, *names):
+    """untouched(o, 'Cls.field', ...): the object's field is EXACTLY as at entry (for a list field: the same length and
+    the same underlying sequence, not only equal elements) - what a frame obligation of a caller needs."""
+    out = []
+    r = obj.terms[-1] if isinstance(obj.kind, KOpt) else obj.terms[0]
+    for n in names:
+        k, new, old = _heap_pair(ex, st, n.py)
+        out += [z3.Select(x, r) == z3.Select(y, r) for x, y in zip(new, old) if not x.eq(y)]
+    return vbool(and_(*out))
+
+
 def sf_fdiv(ex, st, x, y):
     """x / y as the uninterpreted division symbol the code encoding also uses (pyvc.values.FDIV)"""
     from .values import FDIV
@@ -111,7 +122,7 @@ def sf_at_entry(ex, st, *a):
 def install(reg):
     reg.specfuncs.update(isnew=sf_isnew, isold=sf_isold, isnan=sf_isnan, same=sf_same, unchanged=sf_unchanged,
                          unchanged_except=sf_unchanged_except, unchanged_old=sf_unchanged_old, fdiv=sf_fdiv,
-                         unchanged_old_class=sf_unchanged_old_class, nonnull=sf_nonnull)
+                         unchanged_old_class=sf_unchanged_old_class, nonnull=sf_nonnull, untouched=sf_untouched)
 
 
 # ---------------------------------------------------------------- folds over float lists
